@@ -11,7 +11,9 @@ DONE = ("CANCELLED", "CANCELLED_AND_NOTIFIED", "FINISHED")
 class E0(Exception): pass
 class E1(ValueError): pass
 class E2(KeyError): pass
-class E3(E1): pass
+class E3(E1):
+    def __bool__(self):        # a falsy exception object: must be treated like any other
+        return False
 class B0(BaseException): pass
 EXC = [E0, E1, E2, E3]
 BASES = [Exception, ValueError, LookupError, E1, OSError]
